@@ -116,7 +116,16 @@ def contexts():
         "max_push_abandon": simple(lambda h: ("seq", (("max", ("push", ("seq", (h, NEVER))), 2), REST))),
         "star_push_abandon": simple(lambda h: ("seq", (("star", ("push", ("seq", (h, NEVER)))), REST))),
         "opt_push_then_fail": simple(lambda h: ("alt", (("seq", (("opt", ("push", h)), NEVER)), REST))),
+        # plain (not abandoned) optional / first alternative: what is inside may itself fail late
+        "opt": simple(lambda h: ("seq", (("opt", h), REST))),
+        "alt_first": simple(lambda h: ("alt", (h, S("b")))),
+        "max": simple(lambda h: ("seq", (("max", h, 2), REST))),
     }
+    # a predicate over a rule that re-enables pairs for itself ($ and ! rules switch pair hiding off): its pairs must still be discarded
+    for m, mname in (("$", "compound"), ("!", "nonatomic")):
+        def pr(h, i, m=m):
+            return ((f"h{i}", m, h),), ("", ("seq", (("and", R(f"h{i}")), ("not", ("not", R(f"h{i}"))), R(f"h{i}"), REST)))
+        ctx[f"predicates_over_{mname}_rule"] = pr
     # a postfix operator directly over a rule reference whose body commits and then fails
     for m, mname in (("", "normal"), ("_", "silent")):
         def q(h, i, m=m):
@@ -182,6 +191,29 @@ def ctx2_specs(kmode, tier, terminals, trivs, names=None, sigma_core=SIGMA_CORE,
                     if gast.well_formed(rules_env + (("x", "", body),)):
                         starts.append(((), ("", body)))
             out.extend(batch_specs(starts, rules_env, ins, kmode, f"ctx2({outer},{tv})"))
+    return out
+
+
+CTX3_CORE = ["seq_left", "seq_right", "alt_abandon", "alt_second", "alt_first", "opt", "opt_abandon", "star_abandon", "and", "not", "max"]
+
+
+def ctx3_specs(kmode, tier, terminals, trivs=("none",), sigma="abA", L=3):
+    """Three contexts deep: c1(c2(c3(terminal))) over the core contexts - expressions of 8 to 15 nodes."""
+    ctxs = contexts()
+    names = CTX3_CORE
+    out = []
+    for tv in trivs:
+        ins = inputs(sigma + TRIVIA_SIGMA[tv], L)
+        rules_env = TRIVIA[tv] + HELPERS
+        for c1 in names:
+            starts = []
+            for c2 in names:
+                for c3 in names:
+                    for t in terminals:
+                        body = ctxs[c1].expr(("grp", ctxs[c2].expr(("grp", ctxs[c3].expr(t)))))
+                        if gast.well_formed(rules_env + (("x", "", body),)):
+                            starts.append(((), ("", body)))
+            out.extend(batch_specs(starts, rules_env, ins, kmode, f"ctx3({c1},{tv})"))
     return out
 
 
@@ -272,6 +304,10 @@ def extra_specs(kmode: str = "zero", tier: str = "quick"):
                         starts.append(((), (mod, body)))
         sigma = SIGMA_CORE + TRIVIA_SIGMA[tv]
         out.extend(batch_specs(starts, TRIVIA[tv] + HELPERS, inputs(sigma, (4 if tv == "none" else 3) - cut), kmode, f"counts({tv})"))
+    # (3) empty (reversed) ranges, alone and in choices made only of them, under every operator (they never match: a repetition over them ends at once)
+    er = (("range", "b", "a"), ("range", "z", "y"), S("a"))
+    ebodies = gast.exprs_upto(3, er, gast.U_CORE, ("seq", "alt"), gast.Env(HELPERS))
+    out.extend(batch_specs([((), (m, b)) for b in ebodies for m in ("", "@")], HELPERS, inputs("ab", 3 - cut), kmode, "empty-ranges"))
     env = gast.Env(HELPERS)
     terms = (R("NEWLINE"), S("a"), S("\n"), R("ANY"))
     bodies = gast.exprs_upto(2 if tier == "quick" else 3, terms, gast.U_CORE, ("seq", "alt"), env)
@@ -356,6 +392,39 @@ def explicit_trivia_specs(kmode: str = "zero", tier: str = "quick"):
 META_LITS = (".", "a.", ".a", "+", "a+", "[", "[a]", "]", "\\", "a\\", "a|b", "|", "(", "(a)", ")", "^", "^a", "$", "a$", "{", "a{1}", "?", "a?", "*", "a*", "-", "a-c", "\\d", "#", " ", "&", "~", "\U0001F600", "e\u0301", "\u00e9")
 
 
+BUILTIN_PROBE_CHARS = ("a", "A", "1", " ", "!", "-", "_", "\n", "\u00e9", "\u03b1", "\u4e2d", "\u0301", "\U0001F600", "\u01c5", "\u02b0", "\u0660", "\u2028", "\u00a0", "\u0627", "\u05d0", "\u3042", "\uac00", "\u0e01", "\x00", "\ud800")
+
+
+def builtin_specs(kmode: str = "zero", tier: str = "quick"):
+    """EVERY built-in rule of the library (ASCII_*, ANY/SOI/EOI/NEWLINE, ~260 Unicode categories, binary properties and scripts) under a negative
+    predicate, a positive predicate, a repetition and in a choice with a literal, on one- and two-character inputs from 25 characters of many
+    scripts and categories.  Not judged by a model: used for mode agreement, totality and failure reports (rule names!)."""
+    from pest import Parser
+
+    names = sorted(n for n in Parser.BUILTIN if n not in ("PEEK", "POP", "DROP", "PEEK_ALL", "POP_ALL", "PUSH"))
+    if tier == "quick":
+        keep = {"ANY", "SOI", "EOI", "NEWLINE", "LETTER", "UPPERCASE_LETTER", "TITLECASE_LETTER", "MARK", "DECIMAL_NUMBER", "ALPHABETIC", "WHITE_SPACE", "EMOJI", "GREEK", "HAN", "LATIN", "ARABIC", "HIRAGANA", "COMMON", "INHERITED"}
+        names = [n for n in names if n.startswith("ASCII") or n in keep or hash_stable(n) % 4 == 0]
+    starts = []
+    for n in names:
+        B = R(n)
+        starts.append(((), ("", ("seq", (("not", B), R("ANY"))))))
+        starts.append(((), ("", ("seq", (("and", B), S("!"))))))
+        starts.append(((), ("@", ("seq", (("plus", B), S("!"))))) if n not in ("SOI", "EOI") else ((), ("", ("seq", (B, S("!"))))))
+        starts.append(((), ("", ("seq", (("alt", (B, S("-"))), ("alt", (S("!"), B)))))))
+    chars = BUILTIN_PROBE_CHARS
+    ins = ("",) + chars + tuple(c + "!" for c in chars) + tuple(c + c for c in chars[:12]) + tuple("-" + c for c in chars[:12])
+    return batch_specs(starts, (), ins, kmode, "every-built-in")
+
+
+def hash_stable(s: str) -> int:
+    return sum((i + 1) * ord(c) for i, c in enumerate(s))
+
+
+BUILTIN_RULE_TEXT = ("; plus every-built-in: each built-in rule (quick: all ASCII_* and special ones, 19 named Unicode rules and a fixed quarter of the remaining ~240; thorough: all) as !B ~ ANY, &B ~ \"!\", @{ B+ ~ \"!\" } and (B | \"-\") ~ (\"!\" | B) "
+                     "on one- and two-character inputs from 25 characters of many scripts and categories (incl. NUL, a lone surrogate, a non-BMP character, a combining mark)")
+
+
 def metachar_specs(kmode: str = "zero", tier: str = "quick"):
     """Literals made of characters that mean something in a regular expression (and one non-BMP, one combining sequence), in the places the
     optimizer turns into regular expressions or substring searches: choices of literals, a literal next to a range, case-insensitive
@@ -371,11 +440,13 @@ def metachar_specs(kmode: str = "zero", tier: str = "quick"):
         starts.append(((), ("@", ("seq", (NOT_ANY(S(a)), S(a))))))
         starts.append(((), ("", ("seq", (("star", ("grp", ("alt", (S(a), S("b"))))), R("EOI"))))))
         starts.append(((), ("", ("seq", (("alt", (("ci", a), S("b"))), R("EOI"))))))
-    ins = sorted(set(lits) | {"", "a", "b", "ab", "aa", "ac", "abc", "a1", "d", "bb", "A", "A.", "aB", "e", "\u0301"} | {x + x for x in lits[:12]} | {"b" + x for x in lits[:12]} | {x + "b" for x in lits[:12]})
+        starts.append(((), ("", ("seq", (("pushlit", a), ("pop",), R("EOI"))))))
+        starts.append(((), ("", ("seq", (("push", S(a)), ("peek",), ("peekall",), R("EOI"))))))
+    ins = sorted(set(lits) | {x + x + x for x in lits} | {"", "a", "b", "ab", "aa", "ac", "abc", "a1", "d", "bb", "A", "A.", "aB", "e", "\u0301"} | {x + x for x in lits[:12]} | {"b" + x for x in lits[:12]} | {x + "b" for x in lits[:12]})
     return batch_specs(starts, HELPERS, tuple(ins), kmode, "metachar-literals")
 
 
-META_RULE_TEXT = ("; plus metachar-literals: choices of two literals, a literal next to a range, case-insensitive literals, skip-idiom stops and repeated choices built from 35 literals made of regular-expression metacharacters "
+META_RULE_TEXT = ("; plus metachar-literals: choices of two literals, a literal next to a range, case-insensitive literals, skip-idiom stops, repeated choices, PUSH_LITERAL(l) ~ POP and PUSH(l) ~ PEEK ~ PEEK_ALL built from 35 literals made of regular-expression metacharacters "
                   "(. + [ ] \\ | ( ) ^ $ { ? * - # & ~, blank), a non-BMP character, a combining sequence and its precomposed form, on the literals themselves, doubled, and next to ordinary letters")
 U_CORE_SMALL = (("grp",), ("opt",), ("star",), ("plus",), ("and",), ("not",))
 EXPLICIT_RULE_TEXT = "; plus explicit-loud-trivia: every expression with <= 3 nodes over {\"a\", WHITESPACE, COMMENT} with ( ) ? * + & ! ~ | as the body of a normal / @ / $ / ! rule, where WHITESPACE (and COMMENT) are non-silent implicit rules"
@@ -385,7 +456,7 @@ SKIP_RULE_TEXT = ("; plus skip shapes: (!stop ~ ANY)* with stop in {\"b\", (\"b\
                   "inputs over {a,b,B}+trivia up to length 4 (3 with trivia or with every start position)")
 
 EXTRA_RULE_TEXT = ("; plus (c) counts: every bound {m} {m,} {,n} {m,n} with counts 0..3 (zero counts included) over \"a\", n and (\"ab\"|\"a\"), alone / before \"a\" / before EOI / in an abandoned alternative, normal and atomic, without and with implicit whitespace; "
-                   "(d) newline: every expression with <= 2 nodes over {NEWLINE, \"a\", \"\\n\", ANY} on every string over {a, \\r, \\n} up to length 4, also with WHITESPACE = _{ NEWLINE | \" \" }")
+                   "(c2) empty-ranges: every expression with <= 3 nodes over {'b'..'a', 'z'..'y', \"a\"}; (d) newline: every expression with <= 2 nodes over {NEWLINE, \"a\", \"\\n\", ANY} on every string over {a, \\r, \\n} up to length 4, also with WHITESPACE = _{ NEWLINE | \" \" }")
 
 
 def c01_rule_text():
